@@ -9,12 +9,20 @@ Obs == ndJsonDeserialize(ObsFile)
 VARIABLE l
 Init == l = 1
 Next == l < Len(Obs) /\ l' = l + 1
+\* the same records but for the order of the fields inside maps (a diagnosis, not a licence: it is still reported)
+RECURSIVE Unordered(_)
+Unordered(v) == IF IsS(v) THEN v
+                ELSE IF IsA(v) THEN A([i \in 1..Len(v[2]) |-> Unordered(v[2][i])])
+                ELSE <<"m", {<<v[2][i][1], Unordered(v[2][i][2])>> : i \in 1..Len(v[2])}>>
+SameUpToFieldOrder(s, t) == Len(s) = Len(t) /\ \A n \in 1..Len(s) : Unordered(M(s[n])) = Unordered(M(t[n]))
 Conforms ==
   LET o == Obs[l] IN
   CASE o.t = "path" ->
          IF ~(Carries(o.path[1], o.s) /\ InDomain(o.path, o.sep, o.noun, o.s))
          THEN PrintT(ToJson([line |-> l, why |-> "outside"]))
-         ELSE (o.exit = 0 /\ o.out = ConvertPath(o.path, o.sep, o.noun, o.s)) \/ PrintT(ToJson([line |-> l, why |-> "records"]))
+         ELSE LET exp == ConvertPath(o.path, o.sep, o.noun, o.s) IN
+              (o.exit = 0 /\ o.out = exp)
+              \/ PrintT(ToJson([line |-> l, why |-> IF o.exit # 0 THEN "failed" ELSE IF SameUpToFieldOrder(o.out, exp) THEN "field-order" ELSE "records"]))
     [] o.t = "flag" ->
          /\ (o.exit = 0 /\ o.flagout = o.expout) \/ PrintT(ToJson([line |-> l, why |-> "differs-from-expansion"]))
          /\ (o.exit = 0 /\ o.recs = ConvertPath(<<o.in, o.out, "jsonl">>, o.sep, FALSE, Probe(o.probe)))
